@@ -167,6 +167,10 @@ def or_paths(b):
             return fs[0]['f'] if fs else None
         if pl['l'] in (1, 2) and pl['l'] != t_local:
             return pl['l'] - 1      # matched directly (`match self { .. => match other { .. } }`)
+        # through references handed to a helper written in place (`self.yields_to(&other)`)
+        ap = common.strip_refs(common.deep_path(b, {'k': 'copy', 'place': pl}))
+        if ap and ap[0] in ('arg1', 'arg2') and t_local is None:
+            return int(ap[0][3:]) - 1
         return None
 
     def resolve_side(op, depth=0):
@@ -242,8 +246,17 @@ def r2(R2, cfg, F):
             nf = len([e for e in pl['p'] if isinstance(e, dict) and 'f' in e])
             if (pl['l'] == t_local and nf == 1) or (pl['l'] in (1, 2) and pl['l'] != t_local and nf == 0):
                 side = side_of_place(pl)
+            elif t_local is None and nf == 0 and common.strip_refs(common.deep_path(b, {'k': 'copy', 'place': pl})) in (['arg1'], ['arg2']):
+                side = side_of_place(pl)
             if side is not None:
                 return ('variant', side)
+        if not (len(defs) == 1 and defs[0][0] == 'call'):
+            # several copies of the flag (jump threading): the definition that reaches this switch
+            ap = b.access_path(d, at=bb)
+            if ap and len(ap) == 1 and ap[0].startswith('call@bb'):
+                site = [x for x in b.calls() if 'call@bb%d' % x.bb == ap[0]]
+                if site:
+                    defs = [('call', site[0].bb, site[0])]
         if len(defs) == 1 and defs[0][0] == 'call':
             c = defs[0][2]
             if c.callee and c.callee.name == 'eq' and c.callee.self_ty == 'std::io::ErrorKind':
@@ -374,31 +387,47 @@ def r5(R5, cfg, F):
         R5.unrecognised(cfg, b.path, 'match on self', b.loc())
         return
     psw = b.primary_switch(1)
+    # the calls of `f`, and the Cow values that reach them (built in each arm and passed at once, or built in each arm and
+    # passed by one call after the match)
+    fs = [c for c in calls if user_call_kind(c) == 'indirect' and b.origins(c.args[0]) == {('arg', 2)}]
+    reaching = set()
+    fs_ok = bool(fs) and ({('call', c.bb) for c in fs} >= {r for r in b.origins(0) if r[0] == 'call'}) and bool(b.origins(0))
+    for c in fs:
+        tup = agg_direct(b, c.args[1])
+        if tup is None or not tup['rv'].get('tuple'):
+            fs_ok = False
+            continue
+        for r in b.origins(tup['rv']['ops'][0]):
+            if r[0] == 'agg' and b.blocks[r[1]]['stmts'][r[2]]['rv'].get('adt') == 'std::borrow::Cow':
+                reaching.add((r[1], r[2]))
     for v in adt['variants']:
         t = b.variant_edge(psw, v['idx'])
-        reach = b.reachable([t])
-        fs = [c for c in calls if c.bb in reach and user_call_kind(c) == 'indirect']
-        ok = len(fs) == 1 and fs[0].dest['l'] == 0 and b.origins(fs[0].args[0]) == {('arg', 2)}
+        cows = [(bb, j, st) for bb, j, st in b.assigns() if st['rv']['k'] == 'aggregate' and st['rv'].get('adt') == 'std::borrow::Cow'
+                and common.guarded_by_variant(b, bb, [['arg1']], v['idx'])]
+        ok = fs_ok and len(cows) == 1 and (cows[0][0], cows[0][1]) in reaching \
+            and not (b.reachable([t], removed_blocks=[c.bb for c in fs]) & set(b.return_blocks()))
         if ok:
-            tup = agg_direct(b, fs[0].args[1])
-            cow1 = agg_direct(b, tup['rv']['ops'][0]) if tup is not None and tup['rv'].get('tuple') else None
-            cow = [cow1] if cow1 is not None else []
-            ok = len(cow) == 1 and cow[0]['rv'].get('adt') == 'std::borrow::Cow'
+            cow = [cows[0][2]]
             if ok:
                 op = cow[0]['rv']['ops'][0]
                 src = b.downcast_source(op)
                 if src is None:
-                    # (*b).as_ref() for the boxed owner
+                    # (*b).as_ref() for the boxed owner (possibly parked in a local that outlives the borrow)
                     r = b.call_roots(op)
                     if len(r) == 1 and r[0].callee.name == 'as_ref':
-                        l = op_bare_local(r[0].args[0])
-                        src = None
-                        for d in b.defs_of(l) if l is not None else []:
-                            if d[0] == 'stmt' and d[3]['rv']['k'] == 'ref':
-                                base = d[3]['rv']['place']['l']
-                                for d2 in b.defs_of(base):
-                                    if d2[0] == 'stmt' and d2[3]['rv']['k'] == 'cast':
-                                        src = b.downcast_source({'k': 'copy', 'place': {'l': d2[3]['rv']['op']['place']['l'], 'p': []}})
+                        ap = common.strip_refs(common.deep_path(b, r[0].args[0], at=r[0].bb))
+                        if ap[:2] == ['arg1', 'as:' + v['name']]:
+                            src = (1, v['name'])
+                        else:
+                            l = op_bare_local(r[0].args[0])
+                            for d in b.defs_of(l) if l is not None else []:
+                                if d[0] == 'stmt' and d[3]['rv']['k'] == 'ref':
+                                    base = d[3]['rv']['place']['l']
+                                    for d2 in b.defs_of(base):
+                                        if d2[0] == 'stmt' and d2[3]['rv']['k'] == 'cast':
+                                            src = b.downcast_source({'k': 'copy', 'place': {'l': d2[3]['rv']['op']['place']['l'], 'p': []}})
+                                        elif d2[0] == 'stmt' and d2[3]['rv']['k'] == 'use':
+                                            src = b.downcast_source(d2[3]['rv']['op']) or src
                 ok = bool(src) and src[0] == 1 and src[1] == v['name']
         R5.check(ok, cfg, b.path, 'passes-whole-%s-payload' % v['name'], 'the %s arm must pass its whole payload to the loader' % v['name'], '%s:%s' % (b.file, b.blocks[t]['term']['line']))
 
